@@ -564,7 +564,7 @@ func GenTarget(t *rapid.T, o GenOpts, label string) *State {
 	if rapid.IntRange(0, 4).Draw(t, label+"crypto") == 0 {
 		in := s.Intfs[rapid.IntRange(0, n-1).Draw(t, label+"cryptoIntf")]
 		cm := "crypto-" + in.Name
-		np := rapid.IntRange(1, 2).Draw(t, label+"cryptoN")
+		np := rapid.IntRange(1, 4).Draw(t, label+"cryptoN")
 		for k := 1; k <= np; k++ {
 			e := &CryptoEntry{Seq: k, Kind: "ipsec-isakmp", Peers: []string{fmt.Sprintf("10.9.9.%d", k)}}
 			if rapid.Bool().Draw(t, fmt.Sprintf("%scf%d", label, k)) {
@@ -757,7 +757,25 @@ func (s *State) mutate(t *rapid.T, label string) string {
 	case 12: // crypto changes
 		for _, cn := range sortedKeys(s.Crypto) {
 			l := s.Crypto[cn]
-			switch rapid.IntRange(0, 3).Draw(t, label+"cop") {
+			switch rapid.IntRange(0, 6).Draw(t, label+"cop") {
+			case 4, 5:
+				// entries removed on the device (the target adds them), the
+				// numbering of the rest possibly keeps a gap
+				if len(l) < 2 {
+					return "noop"
+				}
+				k := rapid.IntRange(1, len(l)-1).Draw(t, label+"ckeep")
+				perm := rapid.Permutation(l).Draw(t, label+"cperm")
+				keep := append([]*CryptoEntry(nil), perm[:k]...)
+				sort.Slice(keep, func(i, j int) bool { return keep[i].Seq < keep[j].Seq })
+				s.Crypto[cn] = keep
+				return "cryptoEntriesRemoved"
+			case 6:
+				// spread the numbering: 1,2,3 -> 1,3,5
+				for i, e := range l {
+					e.Seq = 2*i + 1
+				}
+				return "cryptoGap"
 			case 0:
 				l[0].Peers = []string{"10.9.9.77"}
 				return "cryptoPeer"
